@@ -31,8 +31,7 @@ def gen_cases(run: Run, n: int):
     # scope-tree skeletons (shared with C04): a value (every 2nd time an initializer) created in one scope and used in others
     from harness import c04
     sks = list(c04.enumerate_skeletons(3, 1))
-    step = max(1, len(sks) // 60)
-    for ski, sk in enumerate(sks[rng.randrange(step)::step]):
+    for ski, sk in enumerate(sks):
         try:
             ins, outs, legal, extra = c04.build_skeleton(sk, as_init=(ski % 2 == 0))
         except Exception:  # noqa: BLE001
